@@ -251,9 +251,9 @@ static bool overread_signature(float got, float want) {
     return up ? kr >= 1 : kr <= -1;
 }
 
-struct Ctx { std::string reader, cfg, casestr; bool fmt = false; };
+struct Ctx { std::string reader, cfg, casestr; bool fmt = false; std::string note; };
 static void viol(const Ctx& c, const std::string& what, const std::string& msg) {
-    R->violation("C10:" + c.reader + ":" + c.cfg + ":" + what, c.reader + ": " + msg + "  [" + c.casestr + "]", "{\"case\": " + vf::jstr(c.casestr) + "}");
+    R->violation("C10:" + c.reader + ":" + c.cfg + ":" + what, c.reader + ": " + c.note + msg + "  [" + c.casestr + "]", "{\"case\": " + vf::jstr(c.casestr) + "}");
 }
 
 static long long g_values = 0;
@@ -281,6 +281,44 @@ static void check_values(Rd& rd, const Expect& e, const Ctx& c, const std::vecto
     };
     if (which.empty()) { for (size_t idx = 0; idx < P; ++idx) if (!one(idx)) return; }
     else for (int idx : which) if (!one(size_t(idx))) return;
+}
+
+// E2 over the reader's own state: every sequence of <= depth access operations on ONE fresh reader object, then all vectors
+// compared.  A reader caches what it loaded, so what a later call returns must not depend on what was asked before.
+static int g_order_depth = 2;
+template <class Make>
+static void access_orders(Make make, const Expect& e, const Ctx& c0) {
+    const size_t P = e.V->rkey.size();
+    if (P < 4 || P > 8) return;
+    const std::string K1 = e.V->rkey[2], K2 = e.V->rkey[3], KL = e.V->rkey[P - 1], T = e.V->rkey[0];
+    static const char* opname[] = {"dates", "get(K1)", "get(Klast)", "loadData({K1,K2})", "loadData({K2,K1,K2,Klast})", "loadData({Klast,TIME,K1})", "loadData()", "get_at_rstep(K2)"};
+    const int NOP = 8;
+    std::vector<int> seq;
+    std::function<void()> rec = [&]() {
+        if (!seq.empty()) {
+            std::string sname; for (int o : seq) sname += std::string(sname.empty() ? "" : " ; ") + opname[o];
+            Ctx c = c0; c.reader += "+order";
+            try {
+                auto rd = make();
+                for (int o : seq) switch (o) {
+                    case 0: (void)rd->dates(); break;
+                    case 1: (void)rd->get(K1); break;
+                    case 2: (void)rd->get(KL); break;
+                    case 3: rd->loadData({K1, K2}); break;
+                    case 4: rd->loadData({K2, K1, K2, KL}); break;
+                    case 5: rd->loadData({KL, T, K1}); break;
+                    case 6: rd->loadData(); break;
+                    case 7: (void)rd->get_at_rstep(K2); break;
+                }
+                c.note = "after the access sequence [" + sname + "] on one reader object: ";
+                check_values(*rd, e, c, {});
+                R->count("access_sequences");
+            } catch (const std::exception& ex) { viol(c, "throws", "after the access sequence [" + sname + "]: reader threw: " + std::string(ex.what()).substr(0, 200)); }
+        }
+        if ((int)seq.size() == g_order_depth) return;
+        for (int o = 0; o < NOP; ++o) { seq.push_back(o); rec(); seq.pop_back(); }
+    };
+    rec();
 }
 
 template <class Rd>
@@ -568,6 +606,7 @@ static void run_case(CaseGroup& G, const std::string& script) {
         EclIO::ESmry lazy(spec, withbase);                  // get() of a vector that is not loaded: loadData({name})
         check_values(lazy, e, c, pos);
         R->count("reads_esmry_select");
+        access_orders([&] { return std::make_unique<EclIO::ESmry>(spec, withbase); }, e, c);
     } catch (const std::exception& ex) { viol({"esmry-select", cfg, casestr, S.fmt}, "throws", std::string("reader threw: ") + std::string(ex.what()).substr(0, 200)); }
 
     // ---- reader 4 (before 3: make_esmry_file refuses to overwrite): the writer's own ESMRY
@@ -583,6 +622,7 @@ static void run_case(CaseGroup& G, const std::string& script) {
                     check_axis(ex, e, c, e.rs_flag, false);
                     check_values(ex, e, c, {});
                     R->count("reads_ext_native");
+                    access_orders([&] { return std::make_unique<EclIO::ExtESmry>(esmry, withbase); }, e, c);
                 }
                 if (withbase) {
                     // same chain with the base ESMRY made by the conversion instead of by the base run's writer
@@ -623,6 +663,7 @@ static void run_case(CaseGroup& G, const std::string& script) {
                 check_axis(ex, eo, c, eo.rs_legacy, false);
                 check_values(ex, eo, c, {});
                 R->count("reads_ext_from_conv");
+                access_orders([&] { return std::make_unique<EclIO::ExtESmry>(esmry, false); }, eo, c);
             }
             if (withbase) {
                 // chained view: needs the base ESMRY too (native for unformatted runs, converted for formatted ones)
@@ -685,8 +726,9 @@ int main(int argc, char** argv) {
     run.rule = "selective load ESmry::loadData(vectList) in a forked child of the sanitizer build: P=N+4 in {5,6,7,999,1000,1001 (thorough +1002,2000,2001,3001)} x all scripts of length <= " + std::to_string(maxlen) + " over {m,M,w} x FMTOUT x UNIFOUT x {no base, base restarted at 1}; vectors at PARAMS positions first/last/around multiples of 1000; sanitizer report or crash of the child = finding, else value oracle";
 #else
     const int maxlen = run.thorough() ? 4 : 3;
+    g_order_depth = run.thorough() ? 3 : 2;
     const std::vector<int> bases = {0, 1, 2};
-    run.rule = "N BPR vectors, N in {1..12} u {k*1000+d-4: k=1..4, |d|<=" + std::string(run.thorough() ? "5" : "2") + "} u {4500} (total PARAMS count P=N+4 straddles every multiple of 1000) x ALL step scripts of length <= " + std::to_string(maxlen) + " over {m: substep, M: closing ministep, w: write} x FMTOUT x UNIFOUT x {no base, base run restarted at r=1,2}; readers ESmry full, ESmry selective (+lazy get of every vector), conversion->ExtESmry, writer's ESMRY->ExtESmry (unformatted only); all vectors x all ministeps compared with float(SummaryState) fingerprints, dates, report-step positions, units, start date; distinct = distinct file byte strings";
+    run.rule = "N BPR vectors, N in {1..12} u {k*1000+d-4: k=1..4, |d|<=" + std::string(run.thorough() ? "5" : "2") + "} u {4500} (total PARAMS count P=N+4 straddles every multiple of 1000) x ALL step scripts of length <= " + std::to_string(maxlen) + " over {m: substep, M: closing ministep, w: write} x FMTOUT x UNIFOUT x {no base, base run restarted at r=1,2}; readers ESmry full, ESmry selective (+lazy get of every vector), conversion->ExtESmry, writer's ESMRY->ExtESmry (unformatted only); for P in 4..8 additionally every sequence of <= " + std::to_string(run.thorough() ? 3 : 2) + " access operations over {dates, get(K1), get(Klast), loadData({K1,K2}), loadData with a repeated key, loadData with TIME in the middle, loadData(), get_at_rstep} on ONE fresh ESmry / ExtESmry object followed by the comparison of all vectors; all vectors x all ministeps compared with float(SummaryState) fingerprints, dates, report-step positions, units, start date; distinct = distinct file byte strings";
 #endif
     run.assumptions = {"reference model in the harness: series = values handed to add_timestep (float), time axis/report steps from the script",
                        "legacy SMSPEC/UNSMRY can only express 'last ministep of a SEQHDR group' as report step; a trailing open report step therefore reads as a report step in ESmry (accepted, counted), ESMRY's RSTEP flags are compared with the isSubstep flags",
